@@ -1,7 +1,8 @@
 (** Property checkers evaluated on the implementation's observed outputs (TG cases). *)
 From Coq Require Import List NArith String Bool.
 From V Require Import Base.Util Base.Strings Base.Result Model.Registry Model.Settings Model.Subst
-  Model.TypePath Model.Derives Model.Generate Model.Emit Model.Equal Model.Builders Checkers.Parse Checkers.Sem Corr.RunTG.
+  Model.TypePath Model.Derives Model.Generate Model.Emit Model.Equal Model.WellFormed Model.Builders
+  Checkers.Parse Checkers.Sem Corr.RunTG.
 Import ListNotations.
 Open Scope string_scope. Open Scope list_scope.
 
@@ -262,66 +263,9 @@ Definition prop_fault_expect (c : tg_case) : bool :=
       end
   end.
 
-(** decidable well-formedness of the input (DESIGN 3.1, the clauses generation depends on) *)
-Definition prelude_names : list string := map fst (prelude_table []).
-
-Definition rank_ok (r : registry) : bool :=
-  (* the non-field graph admits a rank: iterate "all non-field children already ranked" *)
-  let nonfield (t : ty) : list N :=
-    param_ids t ++ match t_def t with
-                   | TDComposite _ | TDVariant _ => []
-                   | d => def_ids d
-                   end in
-  let n := List.length r in
-  let ranked :=
-    (fix go (k : nat) (done : list N) : list N :=
-       match k with
-       | O => done
-       | S k' =>
-           go k' (fold_left (fun acc '(i, e) =>
-                               if mem_N i acc then acc
-                               else if forallb (fun c => mem_N c acc) (nonfield (snd e)) then i :: acc else acc)
-                            (combine (ids_of r) r) done)
-       end) n [] in
-  Nat.eqb (List.length ranked) n.
-
-Definition wf_regb (r : registry) : bool :=
-  ids_consistent r && closed_reg r && rank_ok r &&
-  forallb (fun e =>
-             let t := snd e in
-             match t_def t with
-             | TDComposite _ | TDVariant _ =>
-                 match t_path t with
-                 | [] => false
-                 | [i] => existsb (String.eqb i) prelude_names &&
-                          (negb (String.eqb i "Cow") ||
-                           match t_params t with p0 :: _ => match tp_ty p0 with Some _ => true | None => false end | [] => false end)
-                 | p => forallb ident_okb p && negb (String.eqb (last p "") "Cow")
-                 end &&
-                 match t_def t with
-                 | TDComposite fs => (all_named fs || all_unnamed fs) &&
-                                     forallb (fun f => match f_name f with Some n => ident_okb n | None => true end) fs
-                 | TDVariant vs => forallb (fun v => ident_okb (v_name v) &&
-                                                     (all_named (v_fields v) || all_unnamed (v_fields v)) &&
-                                                     forallb (fun f => match f_name f with Some n => ident_okb n | None => true end)
-                                                             (v_fields v)) vs
-                 | _ => true
-                 end
-             | TDPrimitive (PU256 | PI256) => false
-             | _ => match t_path t with [] => true | _ => false end
-             end) r.
-
-Definition supportedb (r : registry) (s : settings) : bool :=
-  (match s_compact s with
-   | Some _ => true
-   | None => negb (existsb (fun e => match t_def (snd e) with TDCompact _ => true | _ => false end) r)
-   end) &&
-  (match s_bits s with
-   | Some _ => true
-   | None => negb (existsb (fun e => match t_def (snd e) with TDBitSeq _ _ => true | _ => false end) r)
-   end) &&
-  ident_okb (s_root s).
-
+(** decidable well-formedness of the input (DESIGN 3.1 / 3.2, the clauses generation depends on):
+    [wf_regb], [supportedb], [rank_ok] live in Model/WellFormed.v - the very predicates the
+    universal theorems C10_total_wf / C10_resolve_total_wf are stated on *)
 Definition hyp_wf (c : tg_case) : bool :=
   wf_regb (tg_reg c) && supportedb (tg_reg c) (settings_of (tg_spec c)).
 
